@@ -37,6 +37,7 @@
   X(FIN_BEFORE_POP, A) \
   X(EP_CB_BEFORE_STACKREL, W) \
   X(EP_CB_BEFORE_STATUS, W) \
+  X(EP_CB_STATUS_PUBLISHED, W) \
   X(EP_CB_AFTER_STATUS, W) \
   X(DETACH_ENTER, W) \
   X(DETACH_LOCKED, W) \
@@ -192,6 +193,7 @@ void myth_verif_stack_block(void * blk, size_t size);
 void myth_verif_stack_rel(void * stk, void * frame);
 void myth_verif_desc_acq(void * th, size_t sz, int fresh);
 void myth_verif_desc_rel(void * th);
+void myth_verif_owner(int list_rank, const char * what);
 void myth_verif_align(const char * fn, void * frame);
 void myth_verif_sched(int what, int rank, void * th);
 unsigned int myth_verif_seed(int rank, unsigned int dflt);
@@ -209,6 +211,7 @@ int myth_verif_clock(struct timespec * ts);
 #define MYTH_VERIF_STACK_REL(stk) myth_verif_stack_rel((void *)(stk), __builtin_frame_address(0))
 #define MYTH_VERIF_DESC_ACQ(th, fresh) myth_verif_desc_acq((void *)(th), sizeof(struct myth_thread), (fresh))
 #define MYTH_VERIF_DESC_REL(th) myth_verif_desc_rel((void *)(th))
+#define MYTH_VERIF_OWNER(rank, what) myth_verif_owner((rank), (what))
 #define MYTH_VERIF_ALIGN() myth_verif_align(__func__, __builtin_frame_address(0))
 #define MYTH_VERIF_SCHED(what, rank, th) myth_verif_sched(MYTH_VERIF_SCHED_##what, (rank), (void *)(th))
 #define MYTH_VERIF_SEED(rank, dflt) myth_verif_seed((rank), (dflt))
@@ -227,6 +230,7 @@ int myth_verif_clock(struct timespec * ts);
 #define MYTH_VERIF_STACK_REL(stk) ((void)0)
 #define MYTH_VERIF_DESC_ACQ(th, fresh) ((void)0)
 #define MYTH_VERIF_DESC_REL(th) ((void)0)
+#define MYTH_VERIF_OWNER(rank, what) ((void)0)
 #define MYTH_VERIF_ALIGN() ((void)0)
 #define MYTH_VERIF_SCHED(what, rank, th) ((void)0)
 #define MYTH_VERIF_WAIT_UNTIL(name, cond) ((void)0)
